@@ -440,7 +440,15 @@ func (ex *Exchange[H]) request(
 	ctx context.Context,
 	to peer.ID,
 	req *p2p_pb.HeaderRequest,
-) ([]H, error) {
+) (_ []H, err error) {
+	// decoding and validation of what a peer has sent runs code of the header implementation:
+	// a panic there must fail this request, not the process (the session guards itself the same way)
+	defer func() {
+		if r := recover(); r != nil {
+			err = fmt.Errorf("PANIC processing responses: %s", r)
+		}
+	}()
+
 	log.Debugw("requesting peer", "peer", to)
 	start := time.Now()
 	responses, size, err := sendMessage(ctx, ex.host, to, ex.protocolID, req)
